@@ -839,3 +839,61 @@ def _const_val(e):
         if a is not None and b is not None:
             return a * b if e[1] == "Mul" else a + b
     return None
+
+
+# ------------------------------------------------------------------ R1cv: C intrinsics single-block kernels, lane-precise ----
+C_SINGLE = [("c/blake3_sse2.c", ("-msse2",), "sse2"), ("c/blake3_sse41.c", ("-msse4.1",), "sse41"), ("c/blake3_avx512.c", ("-mavx512f", "-mavx512vl"), "avx512")]
+C_SINGLE_FILTERS = ["compress", "loadu", "storeu", "addv", "xorv", "set1", "set4", "rot", "g1", "g2", "diagonalize", "blend_epi16"]
+
+
+def _tus(path, mflags, filters):
+    from concurrent.futures import ThreadPoolExecutor
+    with ThreadPoolExecutor(max_workers=12) as ex:
+        return list(ex.map(lambda f: _rc.tu(path, (), extra_args=mflags, filt=f), filters))
+
+
+def rule_R1_cvec(ctx):
+    """blake3_compress_in_place_<isa> / blake3_compress_xof_<isa> of the C intrinsics files (shuffle-based row form):
+    evaluated lane by lane with the exact semantics of every shuffle/blend/unpack, the stored words equal the spec"""
+    import cvec
+    n = 0
+    for path, mflags, isa in C_SINGLE:
+        tus = _tus(path, mflags, C_SINGLE_FILTERS)
+        for fname, xof in (("blake3_compress_in_place_%s" % isa, False), ("blake3_compress_xof_%s" % isa, True)):
+            n += 1
+            T = Terms()
+            CV = tuple(T.sym("cv%d" % i) for i in range(8))
+            M = tuple(T.sym("m%d" % i) for i in range(16))
+            lo, hi, bl, fl, ctr = T.sym("counter_low"), T.sym("counter_high"), T.sym("block_len"), T.sym("flags"), T.sym("counter")
+            blk = Cell(tuple(M[i // 4] if i % 4 == 0 else T.sym("byte%d" % i) for i in range(64)))
+            cvc = Cell(CV)
+            outc = Cell(tuple(T.sym("out%d" % i) for i in range(64)))
+            ov = {"counter_low": lambda cs, a: lo if a[0] == ctr else T.sym("?"), "counter_high": lambda cs, a: hi if a[0] == ctr else T.sym("?")}
+            cs = cvec.CVec(tus, T, overrides=ov, byte_cells=[blk, outc])
+            f = cs.funcs.get(fname)
+            inst = "c-single-block:%s" % fname
+            if f is None:
+                raise MissingAnchor("%s in %s" % (fname, path))
+            try:
+                args = [Ptr(cvc), Ptr(blk), bl, ctr, fl] + ([Ptr(outc)] if xof else [])
+                cs.run(f, args)
+            except SymFail as e:
+                ctx.ob(False, inst, "%s:%s" % (path, f["line"]), "not evaluable lane-precisely: %s" % e)
+                continue
+            v = spec_compress_pre(T, CV, M, lo, hi, bl, fl)
+            if xof:
+                want = [T.xor(v[i], v[i + 8]) for i in range(8)] + [T.xor(v[i + 8], CV[i]) for i in range(8)]
+                got = [outc.v[4 * i] for i in range(16)]
+                stored = sorted((s[1], s[2]) for s in cs.stores if s[0] == id(outc))
+                okst = stored == [(0, 4), (16, 4), (32, 4), (48, 4)] and not [s for s in cs.stores if s[0] != id(outc)]
+            else:
+                want = [T.xor(v[i], v[i + 8]) for i in range(8)]
+                got = list(cvc.v)
+                stored = sorted((s[1], s[2]) for s in cs.stores if s[0] == id(cvc))
+                okst = stored == [(0, 4), (4, 4)] and not [s for s in cs.stores if s[0] != id(cvc)]
+            d = first_diff(T, got, want)
+            okld = all((c == id(cvc) and i + k <= 8) or (c == id(blk) and i + 4 * k <= 64) for c, i, k in cs.loads)
+            ctx.ob(d is None and okst and okld, inst, "%s:%s" % (path, f["line"]),
+                   "%d output words equal the spec compression lane for lane; reads cv[0..8)+block[0..64), writes exactly the result" % len(want) if d is None and okst and okld else
+                   ("output word %d is %s ; spec %s" % d if d else "stores %s / loads outside cv+block: %s" % (stored, not okld)))
+    ctx.floor("C intrinsics single-block kernels evaluated lane-precisely", n, 6)
